@@ -40,7 +40,8 @@ def Cases(tier):
 
 EXTRA = {}
 
-REQUIRED = ['proggen', 'pg_negation', 'pg_agg_Sum', 'pg_agg_List', 'pg_head_agg',
+REQUIRED = ['fam_dup_disjuncts', 'fam_implication_conj', 'fam_partial_call_in_combine', 'fam_repeated_inject', 'fam_multi_disj_conj', 'fam_in_expr_repeated', 'fam_union_named_positional',
+            'proggen', 'pg_negation', 'pg_agg_Sum', 'pg_agg_List', 'pg_head_agg',
             'distinct', 'multi_body_agg', 'negation', 'neg_conj', 'nested_agg',
             'argminmax', 'fam_sibling_combines', 'fam_shared_local', 'aggexpr_corr0', 'aggexpr_corr1',
             'aggexpr_corr2', 'head_agg_Sum', 'head_agg_Min', 'head_agg_Max',
